@@ -151,6 +151,18 @@ PROPS = {
                'symbolic execution of the join iterator did not finish (boxed iterator chains, per-binding hash maps of enum values; see DESIGN.md C05) - only the unification and provenance kernels are decided',
         'level_text': 'Kernel only (unification of a predicate with a fact; union of origin sets): bounded symbolic execution against an independent specification. The least-fixpoint claim itself is NOT decided by this check.',
     },
+    'C09': {
+        'crate': 'biscuit-auth',
+        'quick': [r'c09_\w+'],
+        'thorough': [],
+        'cap': {'quick': 600, 'thorough': 1800},
+        'per_harness': {r'c09_\w+': {'unwindset': 'memcmp.0:40'}},
+        'functions': ['token::Biscuit::{block,block_version,block_symbols,block_public_keys,block_external_key}', 'format::convert::proto_block_to_token_block (on empty blocks)'],
+        'bounds': 'tokens of 1 and 2 blocks (empty blocks, declared version 3..6); index 0, 1, 2, usize::MAX and every index > block count + 1 symbolically',
+        'stubs': ['alloc::fmt::format', 'zeroize::optimization_barrier'],
+        'out': 'arbitrary byte strings into the protobuf / base64 / PEM / Datalog parsers, printing, adversarial block contents (out-of-range symbol and key ids), hangs, deep nesting: only the index arithmetic of the block accessors is decided; evaluation totality is C06, budget arithmetic C10, key/signature length guards C17',
+        'level_text': 'Accessor index arithmetic only: bounded symbolic execution of the block accessors for every index on small directly built tokens.',
+    },
 }
 
 
